@@ -410,3 +410,23 @@ def KnownTbNopass (nopass : Bool) : Bool := nopass
 def KnownSeqKw (nKeyword : Nat) : Bool := nKeyword != 0
 
 end LokiModel.C34
+
+namespace LokiModel.C34
+open LokiModel.Fir
+
+def beqBounds : List (Ex × Ex) → List (Ex × Ex) → Bool
+  | [], [] => true
+  | (a, b) :: xs, (c, d) :: ys => beqEx a c && beqEx b d && beqBounds xs ys
+  | _, _ => false
+
+/-- class `dedup-differing-dummy-declarations`: the dummies of a group are declared with different types or bounds (the merged
+dummy keeps the declaration of the first one, the body keeps the subscripts written for the others) -/
+def KnownDedupShape (g : Fir.Unit) (gs : List (Ex × List String)) : Bool :=
+  gs.any fun grp => match grp.2 with
+    | first :: rest => rest.any fun r =>
+        match findDecl g first, findDecl g r with
+        | some a, some b => !(decide (a.ty = b.ty) && beqBounds a.dims b.dims)
+        | _, _ => false
+    | [] => false
+
+end LokiModel.C34
